@@ -181,6 +181,17 @@ func runC08(seed int64, n int, tier string, outDir string) (*Report, error) {
 			}
 		}
 	}
+	// the same matrix under the runtime's pointer checker
+	failing, fatal, note, err := c08CheckptrRun(seed, rounds, outDir)
+	if err != nil {
+		return nil, err
+	}
+	rep.Notes = append(rep.Notes, "checkptr: "+note)
+	rep.Count("checkptr-child-runs")
+	if failing != "" {
+		rep.Violate(Violation{Op: "pointer checker (go build -gcflags=all=-d=checkptr) on " + strings.SplitN(failing, " ", 2)[0], Input: failing,
+			Expected: "the view exposes no memory that is not part of the original value", Observed: fatal})
+	}
 	if err := rep.AddCases(cw); err != nil {
 		return nil, err
 	}
